@@ -13,7 +13,8 @@
 //!                 SUBSCRIBE), 27 byte 0x05 (its remaining length: the header is complete), 3 close
 //!   kind 13 / 15  v3 / v5 client with keep-alive cfg[0] s; the harness is the broker: ops 30 CONNACK, 3 close,
 //!                 33 CONNACK with Receive Maximum 1 (v3: plain), 31 the client application publishes one QoS 1
-//!                 message (once per scenario), 32 the broker writes PUBACK(1)
+//!                 message (once per scenario), 32 the broker writes PUBACK(1), 341..343 CONNACK carrying Server
+//!                 Keep Alive 1..3 (v3: plain CONNACK)
 //!   observation per second: closed (0/1), then for every packet received so far its first byte
 //!   (32 CONNACK, 208 PINGRESP, 16 CONNECT, 192 PINGREQ, 224 DISCONNECT followed by its reason code)
 //!
@@ -197,6 +198,12 @@ async fn run_mqtt_case(c: Fields, start: Instant) -> Fields {
                 Some(30) => Some(if v5k { vec![0x20, 3, 0, 0, 0] } else { vec![0x20, 2, 0, 0] }),
                 // CONNACK announcing Receive Maximum 1 (v3: plain CONNACK)
                 Some(33) => Some(if v5k { vec![0x20, 6, 0, 0, 3, 0x21, 0, 1] } else { vec![0x20, 2, 0, 0] }),
+                // CONNACK carrying Server Keep Alive k = 1..3 (v3: plain CONNACK)
+                Some(&k @ 341..=343) => Some(if v5k {
+                    vec![0x20, 6, 0, 0, 3, 0x13, 0, (k - 340) as u8]
+                } else {
+                    vec![0x20, 2, 0, 0]
+                }),
                 // the client application publishes one QoS 1 message
                 Some(31) => {
                     pubgate0.open(1, 0);
